@@ -91,6 +91,47 @@ def run(prog):
     out.append(inst("VX", "%s:order" % fn.npath, OK if ok else VIOLATION, fn, None,
                     "l is prime-side of r iff index(l) < index(r)" if ok else "is_prime_index is %s, expected l.0 < r.0" % show(r)))
     n += 1
+    # is_prime(a, b) asks is_prime_index(position of a, position of b): the first position is computed from a alone
+    # and the second from b alone, whatever kinds of pointer the two are
+    ip = [f for f in prog.lib_fns if f.impl_self == VM and f.name == "is_prime"]
+    if ip:
+        fn = ip[0]
+        errs = []
+        sites = [cs for cs in fn.terms.calls if cs.callee.name == "is_prime_index" and len(cs.args) == 3]
+        if not sites:
+            errs.append("?is_prime does not go through is_prime_index")
+
+        def leaves_of(t):
+            """push projections through joins: field(φ(tuple{..}, ..), i) -> the i-th components"""
+            t = strip(t)
+            if isinstance(t, tuple) and t and t[0] in ("phi", "gamma"):
+                out_ = []
+                for _, v in t[2]:
+                    out_ += leaves_of(v)
+                return out_
+            if isinstance(t, tuple) and t and t[0] == "field" and str(t[2]).isdigit():
+                res = []
+                for inner in leaves_of(t[1]):
+                    inner = strip(inner)
+                    if inner[0] == "agg" and inner[1] == "tuple" and int(t[2]) < len(inner[4]):
+                        res += leaves_of(inner[4][int(t[2])])
+                    else:
+                        res.append(("field", inner) + tuple(t[2:]))
+                return res
+            return [t]
+        for cs in sites:
+            for pos, want, nm in ((1, 2, "first"), (2, 3, "second")):
+                for lf in leaves_of(cs.args[pos]):
+                    ps = {x[1] for x in mir.subterms(lf) if x[0] == "param" and x[1] != 1} | ({lf[1]} if lf[0] == "param" and lf[1] != 1 else set())
+                    if ps and ps != {want}:
+                        errs.append("on some combination of pointer kinds the %s position handed to is_prime_index is %s, computed "
+                                    "from the %s operand: is_prime(a, b) then answers for the pair the other way round"
+                                    % (nm, show(lf)[:50], "second" if want == 2 else "first"))
+                    elif not ps:
+                        errs.append("?the %s position is %s" % (nm, show(lf)[:40]))
+        from .base import verdict_of, errtext
+        out.append(inst("VX", "%s:operand-order" % fn.npath, verdict_of(sorted(set(errs))), fn, None,
+                        errtext(sorted(set(errs))[:2]) if errs else "is_prime_index(position of a, position of b) for every kind of a and b"))
     if n < 7:
         raise CheckerError("VX: only %d sites recognised" % n)
     out += _extra
